@@ -155,29 +155,69 @@ type Server struct {
 
 // StartServer creates and runs a single-member PD server and waits until it leads.
 func StartServer(bootstrap bool) *Server {
+	// Every step is bounded and the whole start is retried with fresh ports: server.Run waits up to five
+	// minutes for its embedded etcd, which is what happens when two harness processes were handed the same
+	// free port by tempurl.Alloc at the same moment.
+	var last interface{}
+	for attempt := 0; attempt < 4; attempt++ {
+		s, err := tryStart(bootstrap, 40*time.Second)
+		if err == nil {
+			return s
+		}
+		last = err
+		fmt.Fprintf(os.Stderr, "harness: PD server start attempt %d failed: %v\n", attempt, err)
+	}
+	panic(fmt.Sprint("harness: could not start the in-process PD server: ", last))
+}
+
+func tryStart(bootstrap bool, limit time.Duration) (*Server, error) {
 	cfg := server.NewTestSingleConfig(&check.C{})
-	// the embedded etcd logs through cfg's logger: keep only fatal messages
+	server.EtcdStartTimeout = limit // (an exported variable of pd, five minutes by default)
 	// the test configuration has a 1 s leader lease: under CPU contention (many harnesses in parallel) the
 	// server would lose and regain leadership in the middle of a sequence
 	cfg.LeaderLease = 60
+	// the embedded etcd logs through cfg's logger: keep only fatal messages
 	cfg.Log.Level = "fatal"
 	if err := cfg.SetupLogger(); err != nil {
-		panic(err)
+		return nil, err
 	}
 	Quiet()
 	ctx, cancel := context.WithCancel(context.Background())
-	svr, err := server.CreateServer(ctx, cfg)
-	if err != nil {
-		panic(err)
+	deadline := time.Now().Add(limit)
+	type started struct {
+		svr *server.Server
+		err error
 	}
-	if err := svr.Run(); err != nil {
-		panic(err)
+	ch := make(chan started, 1)
+	go func() {
+		svr, err := server.CreateServer(ctx, cfg)
+		if err == nil {
+			err = svr.Run()
+		}
+		ch <- started{svr, err}
+	}()
+	fail := func(svr *server.Server, err error) (*Server, error) {
+		cancel()
+		if svr != nil {
+			go svr.Close() // may itself hang: not waited for
+		}
+		os.RemoveAll(cfg.DataDir)
+		return nil, err
+	}
+	var svr *server.Server
+	select {
+	case st := <-ch:
+		if st.err != nil {
+			return fail(st.svr, st.err)
+		}
+		svr = st.svr
+	case <-time.After(limit):
+		return fail(nil, errors.New("server.Run did not return in time"))
 	}
 	Quiet()
-	deadline := time.Now().Add(60 * time.Second)
 	for !svr.GetMember().IsLeader() {
 		if time.Now().After(deadline) {
-			panic("pd server did not become leader")
+			return fail(svr, errors.New("the server did not become leader in time"))
 		}
 		time.Sleep(20 * time.Millisecond)
 	}
@@ -189,18 +229,20 @@ func StartServer(bootstrap bool) *Server {
 			Region: &metapb.Region{Id: 2, Peers: []*metapb.Peer{{Id: 3, StoreId: 1}},
 				RegionEpoch: &metapb.RegionEpoch{ConfVer: 1, Version: 1}},
 		}
-		resp, err := svr.Bootstrap(ctx, req)
+		bctx, bcancel := context.WithTimeout(ctx, 20*time.Second)
+		resp, err := svr.Bootstrap(bctx, req)
+		bcancel()
 		if err != nil || resp.GetHeader().GetError() != nil {
-			panic("bootstrap failed")
+			return fail(svr, fmt.Errorf("bootstrap failed: %v %v", err, resp.GetHeader().GetError()))
 		}
 		for svr.GetRaftCluster() == nil {
-			if time.Now().After(deadline) {
-				panic("raft cluster not running")
+			if time.Now().After(deadline.Add(20 * time.Second)) {
+				return fail(svr, errors.New("the raft cluster did not start in time"))
 			}
 			time.Sleep(10 * time.Millisecond)
 		}
 	}
-	return s
+	return s, nil
 }
 
 // MustLead aborts the harness (exit code 3, bin/check retries once) when the server is no longer leader:
